@@ -386,6 +386,8 @@ def int_boundaries(k, full):
     out.add(lo); out.add(hi)
     if k == "char":
         out = {c for c in out if not 0xd800 <= c <= 0xdfff} | set(CHAR_B)
+    if k == "tag":
+        out |= {55799, 55798, 55800, 24, 32, 258}          # registered numbers a decoder might know about (55799 = self-described CBOR)
     return sorted(out)
 
 
